@@ -372,9 +372,10 @@ class World:
         lo, hi = mech.value_range(key, default, is_state)
         if isinstance(spec, (int, float)):
             return float(spec)
+        rnd = (lambda x: float(round(x))) if spec.get("round") else (lambda x: x)  # round numbers, as typed by people
         if "seed" in spec and spec.get("array"):
-            return [uval(spec["seed"], key, j, lo, hi) for j in range(k)]
-        return uval(spec["seed"], key, 0, lo, hi)
+            return [rnd(uval(spec["seed"], key, j, lo, hi)) for j in range(k)]
+        return rnd(uval(spec["seed"], key, 0, lo, hi))
 
     def key_default(self, key):
         for c in self.ref.chans.values():
